@@ -720,6 +720,12 @@ fn process_attribute<'input>(
     let value = normalize_attribute(value, ctx)?;
 
     if prefix == XMLNS {
+        // The prefix 'xmlns' MUST NOT be declared.
+        if local == XMLNS {
+            let pos = ctx.doc.text_pos_at(range.start);
+            return Err(Error::InvalidElementNamePrefix(pos));
+        }
+
         // The xmlns namespace MUST NOT be declared as the default namespace.
         if value.as_str() == NS_XMLNS_URI {
             let pos = ctx.doc.text_pos_at(range.start);
